@@ -6,7 +6,7 @@ CONSTANTS
   MAX = 3
   MaxWrites = @@MAXW@@
   MaxInj = 2
-  InjKinds = {"fd", "fds", "fe", "fes", "unk"}
+  InjKinds = @@INJ@@
   RSizes = {"one", "small", "big"}
   Gen = FALSE
   Emit = FALSE
